@@ -1,5 +1,5 @@
 ---- MODULE AdmissionMC ----
 EXTENDS Admission, Json
 Emit == PrintT(ToJson([mode |-> mode, kind |-> kind, ext |-> ext, ecase |-> ecase, order |-> order,
-                       decoy |-> IF RealDecoy THEN decoy ELSE "none", epub |-> epub, tgt |-> tgt, then |-> then, expected |-> Expected]))
+                       decoy |-> IF RealDecoy THEN decoy ELSE "none", epub |-> epub, tgt |-> tgt, then |-> then, conf |-> conf, expected |-> Expected]))
 ====
